@@ -58,5 +58,6 @@ proof fn vacuity_pre(r: v1::Function, a: v1::Function, b: v1::Function, m: Map<u
         ],
         assumptions=common.A1 + ['operands of Function + / * have their oneof set (the code panics otherwise: observation outside the property)'] + common.A_COO,
         not_covered=['the size of the epsilon-drop remainders (every remainder is DEFINED: the difference to the specified merge, the entries of the exact product map within epsilon, what an upcast dropped times the other operand)',
+                     'the n-ary Sum / Product impls (Sum for Linear, Sum and Product for Function: folds over a generic iterator, outside the dialect) and the variable / parameter operator macros of v1_ext/decision_variable.rs and parameter.rs (one-line delegations to the Linear operators): bounded stand-in only (D15 was found there)',
                      'Display / AbsDiffEq / Arbitrary impls, as_linear / as_constant / degree / get_constant accessors'],
     )
